@@ -18,15 +18,15 @@ func createDynForTotalThroughputSampler(c *config.TotalThroughputSamplerConfig) 
 	if maxKeys == 0 {
 		maxKeys = 500
 	}
-	clearFreq := c.ClearFrequency
+	clearFreq := dynsamplerInterval(c.ClearFrequency)
 	if clearFreq == 0 {
-		clearFreq = config.Duration(30 * time.Second)
+		clearFreq = 30 * time.Second
 	}
 	clusterSize := 1 // Will be updated by SetClusterSize if needed
 
 	dynsampler := &dynsampler.TotalThroughput{
 		GoalThroughputPerSec:   c.GoalThroughputPerSec / clusterSize,
-		ClearFrequencyDuration: time.Duration(clearFreq),
+		ClearFrequencyDuration: clearFreq,
 		MaxKeys:                maxKeys,
 	}
 	dynsampler.Start()
